@@ -28,10 +28,12 @@ def c03(ctx: Ctx):
         "the realised-input = case check evaluated by TLC; github.com/oasdiff/yaml (JSONToYAML, Marshal) and github.com/oasdiff/yaml3 (Marshal) "
         "as the YAML writers, the library's own reader (Loader.LoadFromData; json/yaml Unmarshal into openapi2.T) as the parser",
         "OpenAPI 2 has no MarshalYAML methods: its yaml.v3-style writer path (jb) is not part of the universe",
+        "external references: the OpenAPI 3 loader runs with IsExternalRefsAllowed and a ReadFromURIFunc serving the resources the case itself carries "
+        "(ext/<Kind>.json, ext/doc.json, built by TLC); LoadFromData without base location, no file system or network",
     ]
     if ctx.replay:
         v = ctx.replay["violation"]
-        write_ndjson(cases, [dict(d=v["d"], ver=v["ver"], doc=v["doc"])])
+        write_ndjson(cases, [dict(d=v["d"], ver=v["ver"], doc=v["doc"], ext=v.get("ext", []))])
         ncases = 1
     else:
         # D: without the listed deviations the implementation-shaped model must still break the contract (model drift guard)
@@ -84,7 +86,7 @@ def c03(ctx: Ctx):
     ctx.extra["kinds_exercised"] = len(kinds)
     ctx.rule = ("cases = every state of spec/Gen_C03.tla within (MaxGrow, MaxGrowExt, MaxShrink): per object kind the bare object, every single "
                 "field in every variant of its category (typical, meaningful zero, redundant default, null, number beyond float64, $ref, $ref with "
-                "siblings), field pairs (thorough), all fields and all-but-one (inline and as $ref), each without / with x- extension and unknown key, "
+                "siblings, external $ref to a whole file / to a fragment of an external document -- also with siblings), field pairs (thorough), all fields and all-but-one (inline, as $ref and as external $ref), each without / with x- extension and unknown key, "
                 "plus hand-written documents with YAML-hostile strings and deep nesting, seeded pseudo-random subsets of 3-8 fields per kind, and repository fixtures (thorough); "
                 "evaluations counts codec trips executed (j1 j2 ja jb ji per document); non-trivial = distinct documents whose object under test "
                 "has at least one optional field, extension or unknown key")
